@@ -219,13 +219,14 @@ func (w *World) runHooks(upTo int64, vac map[string]int64, trace func(string)) (
 	ctx, _ := w.Env.Ctx.CacheContext()
 	m := NewModel(w.Cfg)
 	fs := &failSet{}
+	prev := w.Observe(ctx)
 	for n := int64(1); n <= upTo; n++ {
-		before := w.Observe(ctx)
 		// a different epoch identifier must be ignored
 		err := w.callHook(ctx, otherEpochID, n)
 		transitions++
-		if mid := w.Observe(ctx); err != nil || diff(before, mid, false) != "" {
-			fs.add("foreign_identifier_noop", n, fmt.Sprintf("epoch %d: hook with identifier %q: err=%v changes:%s", n, otherEpochID, err, diff(before, mid, false)))
+		before := w.Observe(ctx)
+		if s := diff(prev, before, false); err != nil || s != "" {
+			fs.add("foreign_identifier_noop", n, fmt.Sprintf("epoch %d: hook with identifier %q: err=%v changes:%s", n, otherEpochID, err, s))
 		}
 		err = w.callHook(ctx, mintEpochID, n)
 		transitions++
@@ -236,6 +237,7 @@ func (w *World) runHooks(upTo int64, vac map[string]int64, trace func(string)) (
 		if trace != nil {
 			trace(fmt.Sprintf("epoch %d hook: %s | observed:%s", n, e, diff(before, after, false)))
 		}
+		prev = after
 	}
 	return fs.list, deltas, transitions
 }
